@@ -477,6 +477,9 @@ def external(fr, dotted, args, kw, extra, n):
             return T.call('isnan', (('tuple', a0[1]),))
         if name == 'mean' and a0 is not None and a0[0] in ('list', 'tuple') and not kw:
             return T.call('mean', (('tuple', T.sort_terms(a0[1])),))
+        if name in ('ceil', 'floor') and a0 is not None and T.isnum(a0):
+            import math
+            return C(int(math.ceil(a0[1]) if name == 'ceil' else math.floor(a0[1])))
         if name in NP_DIRECT or name in SE.MODELLED:
             return T.call(name, args, kw)
         if parts[1:2] == ['random']:
